@@ -194,6 +194,83 @@ Theorem C18_scan_done_reading :
 Proof. exact scan_done_reading. Qed.
 Print Assumptions C18_scan_done_reading.
 
+(* ---- the parser model IS a consumer of that channel, by theorem ---- *)
+From Soy Require Proofs.RecvOnlyTok Proofs.RecvOnlyExpr Proofs.RecvOnlyCmd Proofs.ChanConsumer Proofs.ChanConsumerFile Proofs.ChanCount Proofs.ChanConsumerCount.
+
+(* Model/Parser.v looks at the items only through Token.recv: a run (explicit budget F) that made no more receives
+   than the list has items is the same run on every longer list -- same tree or error, same token state, the
+   extension left over -- and conversely (so what the parse returns depends on the items it received and on nothing
+   else); [ro_parse_zero_padding] is the same for receives past the end (a receive from the closed channel is a
+   receive of a zero item).  By a walk over every procedure of Model/ExprParser.v and Model/Parser.v. *)
+Theorem C18_parser_reads_only_received :
+  forall inlen lexq unq F ts e,
+  (forall r, item_list inlen lexq unq parse_expr expr_fuel F u_eof (cst_init ts) = r ->
+     match RecvOnlyTok.ro_cfin r with Some q => (p_recv q <= length ts)%nat | None => False end ->
+     item_list inlen lexq unq parse_expr expr_fuel F u_eof (cst_init (ts ++ e)) = RecvOnlyTok.ro_crext e r) /\
+  (forall r', item_list inlen lexq unq parse_expr expr_fuel F u_eof (cst_init (ts ++ e)) = r' ->
+     match RecvOnlyTok.ro_cfin r' with Some q => (p_recv q <= length ts)%nat | None => False end ->
+     r' = RecvOnlyTok.ro_crext e (item_list inlen lexq unq parse_expr expr_fuel F u_eof (cst_init ts))).
+Proof. exact RecvOnlyCmd.ro_parse_depends_on_received. Qed.
+Print Assumptions C18_parser_reads_only_received.
+
+Theorem C18_expr_parser_reads_only_received :
+  forall F ts e,
+  (forall r, parse_expr F 0 (pst_init ts) = r ->
+     match RecvOnlyTok.ro_fin r with Some q => (p_recv q <= length ts)%nat | None => False end ->
+     parse_expr F 0 (pst_init (ts ++ e)) = RecvOnlyTok.ro_rext e r) /\
+  (forall r', parse_expr F 0 (pst_init (ts ++ e)) = r' ->
+     match RecvOnlyTok.ro_fin r' with Some q => (p_recv q <= length ts)%nat | None => False end ->
+     r' = RecvOnlyTok.ro_rext e (parse_expr F 0 (pst_init ts))).
+Proof. exact RecvOnlyExpr.ro_parse_expr_depends_on_received. Qed.
+Print Assumptions C18_expr_parser_reads_only_received.
+
+(* hence parse.SoyFile (soy_file, with its own budget) is a consumer PROGRAM of Model/Chan.v -- ro_parser_prog,
+   built from the functional model without the item list: it receives item after item and returns as soon as the
+   model's run on the items received so far stays within them -- and C18_chan_result_of_items applies to it: for a
+   scanner with well-formed items (what C05 proves of the scanner model), any budget F >= |items| + 8 and step
+   bound k >= |items| + 4, under EVERY schedule of the two goroutines the parse, if it returns, returns soy_file's
+   tree or error on the items the scanner sends *)
+Theorem C18_parser_is_chan_consumer :
+  forall inlen lexq unq, lexq_wf lexq ->
+  forall (p : prod tok) sched F k r0,
+  items_wf inlen (items p) -> (length (items p) + 8 <= F)%nat -> (length (items p) + 4 <= k)%nat ->
+  g_cons (run zero_tok sched (cfg_init p (ChanConsumer.ro_parser_prog inlen lexq unq F k))) = CRet r0 ->
+  match po_result (soy_file inlen lexq unq (items p)), r0 with
+  | POk a q, COk a' s => a = a' /\ ChanConsumer.ro_pclear q = c_p s
+  | PErr t c q, CErr t' c' s => t = t' /\ c = c' /\ ChanConsumer.ro_pclear q = c_p s
+  | _, _ => False
+  end.
+Proof. exact ChanConsumerFile.ro_chan_soy_file. Qed.
+Print Assumptions C18_parser_is_chan_consumer.
+
+(* the same for parse.Expr (soy_expr, the repaired entry point: drained on every return), hence for every line of
+   soy.ParseGlobals *)
+Theorem C18_expr_parser_is_chan_consumer :
+  forall inlen (p : prod tok) sched F k r0,
+  items_wf inlen (items p) -> (length (items p) + 8 <= F)%nat -> (length (items p) + 4 <= k)%nat ->
+  g_cons (run zero_tok sched (cfg_init p (ChanConsumer.ro_expr_prog inlen true F k))) = CRet r0 ->
+  match po_result (soy_expr inlen (items p)), r0 with
+  | POk a q, POk a' q' => a = a' /\ ChanConsumer.ro_pclear q = q'
+  | PErr t c q, PErr t' c' q' => t = t' /\ c = c' /\ ChanConsumer.ro_pclear q = q'
+  | _, _ => False
+  end.
+Proof. exact ChanConsumerFile.ro_chan_soy_expr. Qed.
+Print Assumptions C18_expr_parser_is_chan_consumer.
+
+(* and for that program -- the parser, not a stand-in built from its record -- the record parse_file reports for
+   its own scanner is what happened on the channel, and Parser.scan_done of it says exactly whether the scanner
+   goroutine exits *)
+Theorem C18_parser_program_scan_done :
+  forall inlen lexq unq F (p : prod tok) sched k n d r r0,
+  ChanConsumer.ro_file_obs inlen lexq unq F (items p) = Some (n, d, r) -> (n <= k)%nat ->
+  let g := run zero_tok sched (cfg_init p (ChanConsumer.ro_parser_prog inlen lexq unq F k)) in
+  g_cons g = CRet r0 ->
+  hd_error (po_scans (parse_file inlen lexq unq parse_expr expr_fuel F (items p))) = Some (own_scan (length (items p)) n d) /\
+  (scan_done (own_scan (length (items p)) n d) = true -> exists j, exited (run zero_tok (repeat MP j) g)) /\
+  (scan_done (own_scan (length (items p)) n d) = false -> forall more, ~ exited (run zero_tok more g)).
+Proof. exact ChanConsumerCount.rc_parser_scan_done. Qed.
+Print Assumptions C18_parser_program_scan_done.
+
 (* Non-vacuity of the channel model: the scanner of "1 2 3" (four items) against a consumer that
    receives two items and returns (the pinned parse.Expr) under the schedule sync, sync: not scan_done,
    the producer is parked on its third send; with the drain (the repaired parse.Expr) and the schedule
@@ -254,3 +331,13 @@ Example C18_example_from_bytes :
   | _ => False
   end.
 Proof. vm_compute. split; reflexivity. Qed.
+
+(* the parser as a consumer program on the same file: the scanner goroutine sends the eight items, eight
+   rendezvous later the program has returned the tree, after 8 receives and no drain: scan_done *)
+Example C18_example_consumer :
+  let g := run zero_tok (repeat MS 8) (cfg_init (prod_of tok ex_toks) (ChanConsumer.ro_parser_prog 20 ex_lexq ex_unq 16 12)) in
+  match g_cons g with
+  | CRet (COk n _) => n = NList 1 [NCall 5 [46; 117] false (Some (NDataRef 20 [120] [])) []]
+  | _ => False
+  end /\ g_recv g = 8%nat /\ g_drained g = false /\ chan_scan_done 8 g = true.
+Proof. vm_compute. repeat split; reflexivity. Qed.
